@@ -1,31 +1,230 @@
 import Driver.CscIO
+import ClarabelModel.CscMath
 
 open Clarabel Driver
+
+namespace C16Driver
+
+def fmtFE (r : Except Csc.FormatError (Csc Float)) : String :=
+  match r with
+  | .ok A => fmtCsc A
+  | .error e => "err:" ++ e.toString
+
+def fmtCE (r : Except Csc.ConcatError (Csc Float)) : String :=
+  match r with
+  | .ok A => fmtCsc A
+  | .error _ => "err:IncompatibleDimension"
+
+/-- panic sites contain blanks; the comparator only looks at the class -/
+def fmtM {β : Type} (f : β → String) : MErr β → String
+  | .ok v => f v
+  | .error (.panic s) => "panic:" ++ s.replace " " "_"
+  | .error (.err k) => "err:" ++ k
+
+def fmtVec (k : String) (v : Array Float) : String := k ++ "=" ++ fmtFloats v
+def fmtVal (v : Float) : String := "v=" ++ fmtFloat v
+
+def posInf : Float := 1.0 / 0.0
+def negInf : Float := -1.0 / 0.0
+
+/-- one-matrix channels -/
+def withA (kv : KV) (f : Csc Float → String) : String :=
+  match kv.csc "" with
+  | none => "bad-request"
+  | some A => f A
+
+def withAV (kv : KV) (k : String) (f : Csc Float → Array Float → String) : String :=
+  match kv.csc "", kv.floats k with
+  | some A, some v => f A v
+  | _, _ => "bad-request"
+
+def gemvLike (kv : KV) (f : Csc Float → Array Float → Array Float → Float → Float → MErr (Array Float)) : String :=
+  match kv.csc "", kv.floats "y", kv.floats "x", kv.float "a", kv.float "b" with
+  | some A, some y, some x, some a, some b => fmtM (fmtVec "y") (f A y x a b)
+  | _, _, _, _, _ => "bad-request"
+
+def parseRows (kv : KV) : Option (Array (Array Float)) := do
+  let k ← kv.nat "nrows"
+  let rows ← (List.range k).mapM (fun i => kv.floats s!"r{i}")
+  pure rows.toArray
+
+def parseBlocks (kv : KV) : Option (List (List (Csc Float))) := do
+  let lens ← kv.nats "lens"
+  lens.toList.zipIdx.mapM (fun (p : Nat × Nat) =>
+    (List.range p.1).mapM (fun c => kv.csc s!"b{p.2}_{c}_"))
+
+def vec1 (kv : KV) (f : Array Float → String) : String :=
+  match kv.floats "x" with
+  | some x => f x
+  | none => "bad-request"
+
+def vec2 (kv : KV) (f : Array Float → Array Float → String) : String :=
+  match kv.floats "x", kv.floats "y" with
+  | some x, some y => f x y
+  | _, _ => "bad-request"
+
+def handleVec (ch : String) (kv : KV) : String :=
+  match ch with
+  | "vec.dot" => vec2 kv (fun x y => fmtVal (Vec.dot x y))
+  | "vec.sumsq" => vec1 kv (fun x => fmtVal (Vec.sumsq x))
+  | "vec.sum" => vec1 kv (fun x => fmtVal (Vec.sum x))
+  | "vec.norm" => vec1 kv (fun x => fmtVal (Vec.norm x))
+  | "vec.norm_inf" => vec1 kv (fun x => fmtVal (Vec.normInf x))
+  | "vec.norm_one" => vec1 kv (fun x => fmtVal (Vec.normOne x))
+  | "vec.norm_scaled" => vec2 kv (fun x y => fmtVal (Vec.normScaled x y))
+  | "vec.norm_inf_scaled" => vec2 kv (fun x y => fmtVal (Vec.normInfScaled x y))
+  | "vec.mean" => vec1 kv (fun x => fmtVal (Vec.mean x))
+  | "vec.minimum" => vec1 kv (fun x => fmtVal ((Vec.minimum? x).getD posInf))
+  | "vec.maximum" => vec1 kv (fun x => fmtVal ((Vec.maximum? x).getD negInf))
+  | "vec.negate" => vec1 kv (fun x => fmtVec "x" (Vec.negate x))
+  | "vec.recip" => vec1 kv (fun x => fmtVec "x" (Vec.recip x))
+  | "vec.sqrt" => vec1 kv (fun x => fmtVec "x" (Vec.vsqrt x))
+  | "vec.rsqrt" => vec1 kv (fun x => fmtVec "x" (Vec.rsqrt x))
+  | "vec.hadamard" => vec2 kv (fun x y => fmtVec "x" (Vec.hadamard x y))
+  | "vec.scale" =>
+    match kv.floats "x", kv.float "c" with
+    | some x, some c => fmtVec "x" (Vec.scale x c)
+    | _, _ => "bad-request"
+  | "vec.translate" =>
+    match kv.floats "x", kv.float "c" with
+    | some x, some c => fmtVec "x" (Vec.translate x c)
+    | _, _ => "bad-request"
+  | "vec.clip" =>
+    match kv.floats "x", kv.float "lo", kv.float "hi" with
+    | some x, some lo, some hi => fmtVec "x" (x.map (fun v => Vec.clip v lo hi))
+    | _, _, _ => "bad-request"
+  | "vec.select" =>
+    match kv.floats "x", kv.bools "idx" with
+    | some x, some idx => fmtVec "x" (Vec.select x idx)
+    | _, _ => "bad-request"
+  | "vec.axpby" =>
+    match kv.float "a", kv.floats "x", kv.float "b", kv.floats "y" with
+    | some a, some x, some b, some y => fmtVec "y" (Vec.axpby a x b y)
+    | _, _, _, _ => "bad-request"
+  | "vec.waxpby" =>
+    match kv.float "a", kv.floats "x", kv.float "b", kv.floats "y" with
+    | some a, some x, some b, some y => fmtVec "w" (Vec.waxpby a x b y)
+    | _, _, _, _ => "bad-request"
+  | "vec.dot_shifted" =>
+    match kv.floats "z", kv.floats "s", kv.floats "dz", kv.floats "ds", kv.float "a" with
+    | some z, some s, some dz, some ds, some a => fmtVal (Vec.dotShifted z s dz ds a)
+    | _, _, _, _, _ => "bad-request"
+  | _ => "unknown-channel"
+
+def handleMath (ch : String) (kv : KV) : String :=
+  match ch with
+  | "csc.gemv_n" => gemvLike kv Csc.gemvN
+  | "csc.gemv_t" => gemvLike kv Csc.gemvT
+  | "csc.symv" => gemvLike kv Csc.symv
+  | "csc.quad_form" =>
+    match kv.csc "", kv.floats "y", kv.floats "x" with
+    | some A, some y, some x => fmtM fmtVal (A.quadForm y x)
+    | _, _, _ => "bad-request"
+  | "csc.col_sums" => withAV kv "v" (fun A v => fmtM (fmtVec "v") (A.colSums v))
+  | "csc.row_sums" => withAV kv "v" (fun A v => fmtM (fmtVec "v") (A.rowSums v))
+  | "csc.col_norms" => withAV kv "v" (fun A v => fmtM (fmtVec "v") (A.colNorms v))
+  | "csc.col_norms_no_reset" => withAV kv "v" (fun A v => fmtM (fmtVec "v") (A.colNormsNoReset v))
+  | "csc.col_norms_sym" => withAV kv "v" (fun A v => fmtM (fmtVec "v") (A.colNormsSym v))
+  | "csc.col_norms_sym_no_reset" => withAV kv "v" (fun A v => fmtM (fmtVec "v") (A.colNormsSymNoReset v))
+  | "csc.row_norms" => withAV kv "v" (fun A v => fmtM (fmtVec "v") (A.rowNorms v))
+  | "csc.row_norms_no_reset" => withAV kv "v" (fun A v => fmtM (fmtVec "v") (A.rowNormsNoReset v))
+  | "csc.scale" =>
+    match kv.csc "", kv.float "c" with
+    | some A, some c => fmtCsc (A.scale c)
+    | _, _ => "bad-request"
+  | "csc.negate" => withA kv (fun A => fmtCsc A.negate)
+  | "csc.lscale" => withAV kv "l" (fun A l => fmtM fmtCsc (A.lscale l))
+  | "csc.rscale" => withAV kv "r" (fun A r => fmtM fmtCsc (A.rscale r))
+  | "csc.lrscale" =>
+    match kv.csc "", kv.floats "l", kv.floats "r" with
+    | some A, some l, some r => fmtM fmtCsc (A.lrscale l r)
+    | _, _, _ => "bad-request"
+  | "csc.hcat" =>
+    match kv.csc "a", kv.csc "b" with
+    | some A, some B => fmtCE (Csc.hcat A B)
+    | _, _ => "bad-request"
+  | "csc.vcat" =>
+    match kv.csc "a", kv.csc "b" with
+    | some A, some B => fmtCE (Csc.vcat A B)
+    | _, _ => "bad-request"
+  | "csc.blockdiag" =>
+    match kv.nat "k" with
+    | none => "bad-request"
+    | some k =>
+      match (List.range k).mapM (fun i => kv.csc s!"b{i}_") with
+      | some mats => fmtCE (Csc.blockdiag mats)
+      | none => "bad-request"
+  | "csc.hvcat" =>
+    match parseBlocks kv with
+    | some mats => fmtCE (Csc.hvcat mats)
+    | none => "bad-request"
+  | _ => handleVec ch kv
 
 def handleC16 (ch : String) (kv : KV) : String :=
   match ch with
   | "csc.check_format" =>
-    match kv.csc "" with
-    | none => "bad-request"
-    | some A => match A.checkFormat with
+    withA kv (fun A => match A.checkFormat with
       | .ok () => "ok"
-      | .error e => "err:" ++ e.toString
-  | "csc.to_triu" =>
-    match kv.csc "" with
-    | none => "bad-request"
-    | some A => fmtM fmtCsc A.toTriu
-  | "csc.is_triu" =>
-    match kv.csc "" with
-    | none => "bad-request"
-    | some A => fmtBool A.isTriu
+      | .error e => "err:" ++ e.toString)
+  | "csc.to_triu" => withA kv (fun A => fmtM fmtCsc A.toTriu)
+  | "csc.is_triu" => withA kv (fun A => fmtBool A.isTriu)
   | "csc.select_rows" =>
     match kv.csc "", kv.bools "keep" with
     | some A, some keep => fmtM fmtCsc (A.selectRows keep)
     | _, _ => "bad-request"
-  | "csc.transpose" =>
-    match kv.csc "" with
+  | "csc.transpose" => withA kv (fun A => fmtCsc A.transpose)
+  | "csc.from_rows" =>
+    match parseRows kv with
+    | some rows => fmtM fmtCsc (Csc.fromRows rows)
     | none => "bad-request"
-    | some A => fmtCsc A.transpose
-  | _ => "unknown-channel"
+  | "csc.new_from_triplets" =>
+    match kv.nat "m", kv.nat "n", kv.nats "I", kv.nats "J", kv.floats "V" with
+    | some m, some n, some I, some J, some V => fmtM fmtCsc (Csc.newFromTriplets m n I J V)
+    | _, _, _, _, _ => "bad-request"
+  | "csc.spalloc" =>
+    match kv.nat "m", kv.nat "n", kv.nat "nnz" with
+    | some m, some n, some nnz => fmtCsc (Csc.spalloc m n nnz)
+    | _, _, _ => "bad-request"
+  | "csc.zeros" =>
+    match kv.nat "m", kv.nat "n" with
+    | some m, some n => fmtCsc (Csc.zeros m n)
+    | _, _ => "bad-request"
+  | "csc.identity" =>
+    match kv.nat "n" with
+    | some n => fmtCsc (Csc.identity n)
+    | none => "bad-request"
+  | "csc.dropzeros" => withA kv (fun A => fmtCsc A.dropzeros)
+  | "csc.findnz" =>
+    withA kv (fun A =>
+      let (I, J, V) := A.findnz
+      s!"I={fmtNats I} J={fmtNats J} V={fmtFloats V}")
+  | "csc.canonicalize" => withA kv (fun A => fmtFE A.canonicalize)
+  | "csc.is_equal_sparsity" =>
+    match kv.csc "a", kv.csc "b" with
+    | some A, some B => fmtBool (A.isEqualSparsity B)
+    | _, _ => "bad-request"
+  | "csc.check_equal_sparsity" =>
+    match kv.csc "a", kv.csc "b" with
+    | some A, some B => match A.checkEqualSparsity B with
+      | .ok () => "ok"
+      | .error e => "err:" ++ e.toString
+    | _, _ => "bad-request"
+  | "csc.get_entry" =>
+    match kv.csc "", kv.nat "row", kv.nat "col" with
+    | some A, some r, some c => fmtM (fun o => match o with
+      | some v => "some=" ++ fmtFloat v
+      | none => "none") (A.getEntry r c)
+    | _, _, _ => "bad-request"
+  | "csc.set_entry" =>
+    match kv.csc "", kv.nat "row", kv.nat "col", kv.float "v" with
+    | some A, some r, some c, some v => fmtM fmtCsc (A.setEntry r c v)
+    | _, _, _, _ => "bad-request"
+  | "csc.index_to_coord" =>
+    match kv.csc "", kv.nat "idx" with
+    | some A, some idx => fmtM (fun (p : Nat × Nat) => s!"row={p.1} col={p.2}") (A.indexToCoord idx)
+    | _, _ => "bad-request"
+  | _ => handleMath ch kv
 
-def main : IO Unit := runMain handleC16
+end C16Driver
+
+def main : IO Unit := runMain C16Driver.handleC16
